@@ -609,6 +609,31 @@ func runC08(c *fw.Ctx) {
 			}
 		}
 	}
+	// after a clean stop and a start, EVERY kind of request must work on what was loaded from disk (tables created
+	// without families, with families, with rows): one restart, then each request of the alphabet
+	noFam := bt.Op{Kind: "CreateTable", Parent: parentI, TableID: "t"}
+	for si, first := range [][]bt.Op{{noFam}, {alpha[0], alpha[2]}, {alpha[0], alpha[2], alpha[8]}} {
+		for k := range alpha {
+			item++
+			if !c.Mine(item) {
+				continue
+			}
+			cs := c08Case{Segs: []c08Seg{{Ops: first, Kill: -1}, {Ops: []bt.Op{alpha[k], alpha[2]}, Kill: -1}}}
+			cl, dtl := runC08Case(c, cs, stepwise)
+			c.Eval(1)
+			c.State(fw.Hash("post-restart", fmt.Sprint(si, k)))
+			c.Outcome("post-restart:" + c14Tag(&alpha[k]))
+			if cl != "" {
+				c.Violate("C08:"+cl+":post-restart:"+c08Tag(cs), dtl+"\n  program: "+bt.OpsString(first)+" || restart || "+bt.OpsString(cs.Segs[1].Ops), cs, func() string {
+					cl2, _ := runC08Case(c, cs, stepwise)
+					if cl2 == "" {
+						return ""
+					}
+					return "C08:" + cl2 + ":post-restart:" + c08Tag(cs)
+				})
+			}
+		}
+	}
 	// sibling tables whose ids extend another table's id by a suffix the disk storage might use for its own scratch
 	// names (table ids may contain dots): clearing, deleting or re-creating one table must not touch the other
 	for _, suffix := range []string{".deleted", ".new", ".table.proto.tmp", ".tmp", ".table.proto", ".v2", "-2"} {
